@@ -1,6 +1,7 @@
 package main
 
 import (
+	"context"
 	"encoding/json"
 	"fmt"
 	"math/rand"
@@ -128,6 +129,44 @@ func recordText(doc [][]string, c *tok.Conc, gen string) *traceRec {
 		rec.ErrK, rec.ErrRow = classifyErr(o.Err, c)
 	default:
 		rec.Res = o.Class() // panic / hang: never equal to what the spec expects
+		rec.err = firstLine(o.Panic)
+	}
+	return rec
+}
+
+// recordTree runs an encoder (JSON or YAML by turns; massive: JSON in massive mode) and decodes what it wrote.
+func recordTree(doc [][]string, c *tok.Conc, massive bool, k int) *traceRec {
+	rec := emptyRec("tree", "iter", doc)
+	rec.bytes, rec.conc = c.Doc(doc), c
+	opts, dec := []gtree.Option{gtree.WithEncodeJSON()}, real.DecodeJSON
+	if k%2 == 1 && !massive {
+		opts, dec = []gtree.Option{gtree.WithEncodeYAML()}, real.DecodeYAML
+	}
+	if massive {
+		rec.Op = "mtree"
+		opts = append(opts, gtree.WithMassive(context.Background()))
+	} else if k%4 >= 2 {
+		rec.Gen = "slice"
+		opts = append(opts, gtree.WithNoUseIterOfSimpleOutput())
+	}
+	o := real.OutputMD(rec.bytes, opts...)
+	rec.out, rec.err = o.Out, o.ErrString()
+	switch o.Class() {
+	case "ok":
+		rec.Res = "ok"
+		dt, err := dec(o.Out)
+		if err != nil {
+			rec.Res, rec.err = "undecodable", err.Error()
+			break
+		}
+		for _, t := range dt {
+			rec.Forest = append(rec.Forest, dtreeToJ(t, c))
+		}
+	case "err":
+		rec.Res = "err"
+		rec.ErrK, rec.ErrRow = classifyErr(o.Err, c)
+	default:
+		rec.Res = o.Class()
 		rec.err = firstLine(o.Panic)
 	}
 	return rec
@@ -266,6 +305,8 @@ func traceDocs(r *evid.Run, id string, ts traceSpec) {
 					recs = append(recs, recordText(doc, c, "iter"), recordText(doc, c, "slice"))
 				case "walk":
 					recs = append(recs, recordWalk(doc, c))
+				case "tree":
+					recs = append(recs, recordTree(doc, c, false, total), recordTree(doc, c, true, total))
 				}
 			}
 			total++
